@@ -114,6 +114,7 @@ CHECKS = {
                 J("kernels", "prod-dyn", ["--prop", "C09", "--kernel", "sse"], label="prod-dyn/sse-kernel") + J("kernels", "prod-dyn", ["--prop", "C09", "--kernel", "avx2"], label="prod-dyn/avx2-kernel") +
                 J("serenum", "prod-hsw", ["--only", "T9_fenced_blocks"], label="prod-hsw/serialize-fenced-strings") + J("serenum", "prod-wsm", ["--only", "T9_fenced_blocks"], label="prod-wsm/serialize-fenced-strings") +
                 J("serenum", "prod-dyn", ["--only", "T9_fenced_blocks"], label="prod-dyn/serialize-fenced-strings") +
+                J("serenum", "asan-hsw", ["--only", "T10_closes_after_strings_x_capacity"], label="asan-hsw/serialize-capacity-sweep") +
                 (J("kernels", "asan-wsm", ["--prop", "C09"]) + J("kernels", "prod-dyn", ["--prop", "C09"], label="prod-dyn/dispatched") if t == "thorough" else []),
                 budget=dict(quick=300, thorough=3000),
                 rule="internal::Quote on every length 0..100 with every byte value at every position and two special bytes at all position pairs; output validated byte by byte (verbatim copies, correct escapes, length <= 6n+2); production build: source ending 0..64 bytes before an unmapped page with three different in-page tails (output must not depend on them), destination exactly 6n+35 bytes before an unmapped page; ASan: exact-size heap source and destination. Long strings (one special byte at every position up to 4097 bytes). Three further jobs serialise documents whose allocator places every block (copied strings own exactly len+1 bytes) directly in front of an inaccessible page."),
@@ -126,7 +127,8 @@ CHECKS = {
     "C07": dict(level="exploration", engine="ftoaenum",
                 jobs=lambda t: J("ftoaenum", "prod-hsw", []) + (J("ftoaenum", "prod-hsw-clang", ["--only", "D1_exponent_x_pattern"], label="prod-hsw-clang/D1") if t == "thorough" else []) + (J("ftoaenum", "asan-hsw", ["--only", "D2_decimal_table_rows"]) + J("ftoaenum", "asan-hsw", ["--only", "D3b_format_switch_points"], label="asan-hsw/D3b") +
                 J("serenum", "asan-hsw", ["--only", "T5_number_packing"], label="asan-hsw/serializer-number-reserve") +
-                J("serenum", "prod-hsw", ["--only", "T7_neighbouring_numbers"], label="prod-hsw/serializer-neighbouring-numbers")),
+                J("serenum", "prod-hsw", ["--only", "T7_neighbouring_numbers"], label="prod-hsw/serializer-neighbouring-numbers") +
+                J("serenum", "asan-hsw", ["--only", "T4_nonfinite"], label="asan-hsw/numbers-after-a-failed-serialize")),
                 budget=dict(quick=200, thorough=4000),
                 rule="F64toa output per double: JSON number with fraction or exponent, <= 32 bytes, sign kept; strtod(out)==v and this library parses it back to the same bits; minimal digit count (neither (n-1)-digit grid neighbour reads back); closest among the shortest (exact big-integer comparison, ties accept either). Families: every binary exponent x boundary significand patterns, every decimal table row (d*10^k +-3ulp), all small integers, format switch points, single-precision values (thorough: all 2^32)."),
     "C16": dict(level="model_checking", engine="allocexplore",
@@ -150,7 +152,7 @@ CHECKS = {
     "C06": dict(level="exploration", engine="serenum",
                 jobs=lambda t: J("serenum", "prod-hsw", []) + J("serenum", "asan-hsw", []) + J("domexplore", "prod-hsw", ["--only", "M_pool_nestedmap"], label="prod-hsw/domexplore-states") + (J("serenum", "prod-wsm", []) if t == "thorough" else []),
                 budget=dict(quick=150, thorough=3000),
-                rule="documents parsed from every accepted text of the families, API-built strings of every byte value/length/position, boundary integers and doubles, and non-finite doubles at every position, each serialised into 17 write-buffer start states (fresh, reused, reused after larger/smaller output, WriteBuffer(c) for 12 small capacities; exact-size reallocs under ASan): Serialize succeeds, all states give identical bytes, the output is accepted by the independent reference recogniser and denotes the same value with the same number kinds, Parse(output) is == the original, re-serialising gives identical bytes, ToString is NUL-terminated; non-finite -> kSerErrorInfinity and Dump()==''. Every state reached by the mutation-API BFS is round-tripped too (second job)."),
+                rule="documents parsed from every accepted text of the families, API-built strings of every byte value/length/position, boundary integers and doubles, and non-finite doubles at every position, each serialised into 25 write-buffer start states (fresh, reused, reused after larger/smaller output, WriteBuffer(c) for 12 small capacities, move-assigned / moved-from / move-constructed / swapped buffers of different capacities; exact-size reallocs under ASan): Serialize succeeds, all states give identical bytes, the output is accepted by the independent reference recogniser and denotes the same value with the same number kinds, Parse(output) is == the original, re-serialising gives identical bytes, ToString is NUL-terminated; non-finite -> kSerErrorInfinity and Dump()==''. Every state reached by the mutation-API BFS is round-tripped too (second job)."),
     "C17": dict(level="model_checking", engine="sched",
                 jobs=lambda t: J("sched", "sched-prod", []) + J("sched", "sched", ["--only", "SC_alloc_2threads_x2ops", "--bound", "1"], label="sched-asan/2threads-bound1") +
                 J("tsanrun", "tsan", [], env=TSAN_ENV) + J("tsanrun", "tsan-locked", [], env=TSAN_ENV) +
